@@ -816,7 +816,12 @@ def whole_file_processed_rule(P, rep, rid):
     ok = False
     det = 'file_post is not given the start of the range'
     if ks:
-        nm = fp.args[ks[0]].get('name') or ''
+        # the name under which expressions show the parameter: the (reference-mapped) name of its spill slot
+        nm = ''
+        for aid_, ak_ in fp.arg_allocas().items():
+            if ak_ == ks[0]:
+                nm = fp.insts[aid_].var or ''
+        nm = nm or fp.args[ks[0]].get('name') or ''
         gs = guards_of(fp, ut[0], expand=True)
         ok = bool(nm) and any(re.search(r'\b%s\b' % re.escape(nm), a) for a, p_ in gs)
         det = 'guards of the time-stamp restoration: %s' % [a[:50] for a, p_ in gs if nm and nm in a] if ok else 'file_post receives the range start (%s) but the verdict does not depend on it' % nm
